@@ -125,35 +125,60 @@ pub fn check_symmetry(group: usize, p: &Params, copies: &[(P, PointSet)]) -> Res
             return Err(format!("operation #{} of {} is not a rigid motion of the cell (length {}, ratio {}, angle {}): M W M^-1 = {:?}", k, g.name, p.length, p.ratio, p.angle, lin));
         }
         let gk = Aff { l: lin, t: lat.to_cart(o.t) };
-        let mut hit = vec![false; copies.len()];
+        // ok[j][j2]: the image of copy j coincides with copy j2 translated by a lattice vector
+        let nc = copies.len();
+        let mut ok = vec![vec![false; nc]; nc];
         for (j, (centre, pts)) in copies.iter().enumerate() {
             let gc = gk.apply(*centre);
             let gpts: Vec<(P, f64)> = pts.iter().map(|(q, r)| (gk.apply(*q), *r)).collect();
-            let mut found = None;
             for (j2, (c2, pts2)) in copies.iter().enumerate() {
-                if hit[j2] {
-                    continue;
-                }
-                // lattice vector that would carry copy j2 onto the image
+                // the nearest integers and their neighbours (a difference of fractional coordinates within
+                // rounding of a half-integer can round either way)
                 let f = minv.apply(gc.sub(*c2));
-                let l = lat.to_cart(P::new(f.x.round(), f.y.round()));
-                let tol = 1e-9 * (1. + gc.norm() + l.norm());
-                let matches = |a: &[(P, f64)], b: &[(P, f64)]| a.iter().all(|(q, r)| b.iter().any(|(q2, r2)| q.sub(q2.add(l)).norm() <= tol && (r - r2).abs() <= 1e-12));
-                let back = |a: &[(P, f64)], b: &[(P, f64)]| b.iter().all(|(q2, r2)| a.iter().any(|(q, r)| q.sub(q2.add(l)).norm() <= tol && (r - r2).abs() <= 1e-12));
-                if gpts.len() == pts2.len() && matches(&gpts, pts2) && back(&gpts, pts2) {
-                    found = Some(j2);
-                    break;
+                'search: for dn in [0., -1., 1.].iter() {
+                    for dm in [0., -1., 1.].iter() {
+                        let l = lat.to_cart(P::new(f.x.round() + dn, f.y.round() + dm));
+                        let tol = 1e-9 * (1. + gc.norm() + l.norm());
+                        if gc.sub(c2.add(l)).norm() > tol {
+                            continue;
+                        }
+                        let matches = |a: &[(P, f64)], b: &[(P, f64)]| a.iter().all(|(q, r)| b.iter().any(|(q2, r2)| q.sub(q2.add(l)).norm() <= tol && (r - r2).abs() <= 1e-12));
+                        let back = |a: &[(P, f64)], b: &[(P, f64)]| b.iter().all(|(q2, r2)| a.iter().any(|(q, r)| q.sub(q2.add(l)).norm() <= tol && (r - r2).abs() <= 1e-12));
+                        if gpts.len() == pts2.len() && matches(&gpts, pts2) && back(&gpts, pts2) {
+                            ok[j][j2] = true;
+                            break 'search;
+                        }
+                    }
                 }
             }
-            match found {
-                Some(j2) => hit[j2] = true,
-                None => {
-                    return Err(format!(
-                        "operation #{} of {} maps the placed copy {} (centre {:?}) onto a shape that is not among the placed copies modulo lattice translations (cell {}/{}/{}, {} copies)",
-                        k, g.name, j, centre, p.length, p.ratio, p.angle, copies.len()
-                    ))
+            if !ok[j].iter().any(|x| *x) {
+                return Err(format!(
+                    "operation #{} of {} maps the placed copy {} (centre {:?}) onto a shape that is not among the placed copies modulo lattice translations (cell {}/{}/{}, {} copies)",
+                    k, g.name, j, centre, p.length, p.ratio, p.angle, copies.len()
+                ));
+            }
+        }
+        // a perfect matching must exist (each copy hit exactly once): at most 4 copies, so try the permutations
+        fn perfect(ok: &Vec<Vec<bool>>, j: usize, used: &mut Vec<bool>) -> bool {
+            if j == ok.len() {
+                return true;
+            }
+            for j2 in 0..ok.len() {
+                if ok[j][j2] && !used[j2] {
+                    used[j2] = true;
+                    if perfect(ok, j + 1, used) {
+                        return true;
+                    }
+                    used[j2] = false;
                 }
             }
+            false
+        }
+        if !perfect(&ok, 0, &mut vec![false; nc]) {
+            return Err(format!(
+                "operation #{} of {} does not permute the placed copies: every image coincides with some copy, but two images need the same one (cell {}/{}/{}, {} copies, coincidence table {:?})",
+                k, g.name, p.length, p.ratio, p.angle, copies.len(), ok
+            ));
         }
     }
     Ok(distinct && g.ops.len() >= 2)
